@@ -92,7 +92,7 @@ func TestC20_Equality(t *testing.T) {
 			x, y, z = mk("cx"), mk("cy"), mk("cz")
 		}
 		deepNest := 0
-		if rapid.IntRange(0, 199).Draw(t, "deepnest") == 0 {
+		if rapid.IntRange(0, 999).Draw(t, "deepnest") == 0 {
 			// the same three values at the bottom of a deep nest of arrays and
 			// single-member objects (a comparison that changes its method below
 			// some depth shows here); supplied through the document only
@@ -195,7 +195,7 @@ func TestC20_Equality(t *testing.T) {
 		}
 		not := func(e ast.Expr) ast.Expr { return &ast.Unary{Op: "!", X: ast.Paren(e)} }
 		T, F := ast.RawS("T"), ast.RawS("F")
-		keys := []string{"refl", "xy", "yx", "ne", "yz", "xz", "cont", "nx", "and", "or", "filt", "nn", "cond"}
+		keys := []string{"refl", "xy", "yx", "ne", "yz", "xz", "cont", "nx", "and", "or", "filt", "nn", "cond", "nnlt", "nnge", "nlt", "nneq", "nncont", "ltor", "ltand"}
 		items := []ast.Expr{
 			ast.Bin("==", X, X), ast.Bin("==", X, Y), ast.Bin("==", Y, X), ast.Bin("!=", X, Y), ast.Bin("==", Y, Z), ast.Bin("==", X, Z),
 			ast.Call("contains", ast.A(&ast.Chain{Head: ast.Head{Kind: ast.HMultiList, Items: []ast.Expr{Z, Y}}}), ast.A(X)),
@@ -203,10 +203,18 @@ func TestC20_Equality(t *testing.T) {
 			(&ast.Chain{Head: ast.Head{Kind: ast.HMultiList, Items: []ast.Expr{X}}}).With(ast.Step{Kind: ast.SFilter, Cond: ast.Cur()}),
 			not(not(X)),
 			ast.Bin("||", ast.Bin("&&", X, T), F),
+			// truthiness of the results of comparisons (an ordering comparison
+			// of non-numbers is null, not false): !! of anything is a boolean
+			not(not(ast.Bin("<", X, Y))), not(not(ast.Bin(">=", Y, X))), not(ast.Bin("<", X, Y)), not(not(ast.Bin("==", X, Y))),
+			not(not(ast.Call("contains", ast.A(&ast.Chain{Head: ast.Head{Kind: ast.HMultiList, Items: []ast.Expr{Z, Y}}}), ast.A(X)))),
+			ast.Bin("||", ast.Paren(ast.Bin("<", X, Y)), F), ast.Bin("&&", ast.Paren(ast.Bin("<=", X, Y)), T),
 		}
 		e := &ast.Chain{Head: ast.Head{Kind: ast.HMultiHash, Keys: keys, Items: items}}
 		doc := jv.VObj(ms)
-		text := ast.RenderWith(e, gen.Chooser{T: t})
+		text := ast.Render(e)
+		if rapid.IntRange(0, 2).Draw(t, "spelled") == 0 {
+			text = ast.RenderWith(e, gen.Chooser{T: t}) // (a draw per token: a third of the cases)
+		}
 		node := run.FromVal(doc)
 		call := run.Call{API: "search", Expr: text, Doc: &node}
 		run.Watch(c, "equality", call)
@@ -288,6 +296,47 @@ func c20Verdict(x, y, z jv.Val, out run.Outcome, xComputed bool) string {
 		if got != want[k] {
 			return fmt.Sprintf("%s: got %v, want %v (x=%s y=%s z=%s)", describeKey(k), got, want[k], x.JSON(), y.JSON(), z.JSON())
 		}
+	}
+	// comparisons as operands: the model gives the value of the comparison
+	// (null for an ordering comparison of non-numbers), the one truthiness
+	// rule gives the rest
+	cmpVal := func(op string, a, b jv.Val) (jv.Val, bool) {
+		r := model.EvalAt(ast.Bin(op, ast.Lit(a), ast.Lit(b)), jv.VNull(), jv.VNull())
+		return r.V, r.IsValue()
+	}
+	if lt, ok := cmpVal("<", x, y); ok {
+		for k, wantB := range map[string]bool{"nnlt": lt.Truthy(), "nlt": !lt.Truthy()} {
+			if got, msg := b(k); msg != "" || got != wantB {
+				return fmt.Sprintf("%s of (x < y): got %s, want %v (x=%s y=%s; x < y is %s)", map[string]string{"nnlt": "!!", "nlt": "!"}[k], get(k).JSON(), wantB, x.JSON(), y.JSON(), lt.JSON())
+			}
+		}
+		wantOr := jv.VStr("F")
+		if lt.Truthy() {
+			wantOr = lt
+		}
+		if !jv.StrictEqual(get("ltor"), wantOr) {
+			return fmt.Sprintf("(x < y) || 'F': got %s, want %s (x=%s y=%s)", get("ltor").JSON(), wantOr.JSON(), x.JSON(), y.JSON())
+		}
+	}
+	if ge, ok := cmpVal(">=", y, x); ok {
+		if got, msg := b("nnge"); msg != "" || got != ge.Truthy() {
+			return fmt.Sprintf("!!(y >= x): got %s, want %v (x=%s y=%s)", get("nnge").JSON(), ge.Truthy(), x.JSON(), y.JSON())
+		}
+	}
+	if le, ok := cmpVal("<=", x, y); ok {
+		wantAnd := le
+		if le.Truthy() {
+			wantAnd = jv.VStr("T")
+		}
+		if !jv.StrictEqual(get("ltand"), wantAnd) {
+			return fmt.Sprintf("(x <= y) && 'T': got %s, want %s (x=%s y=%s)", get("ltand").JSON(), wantAnd.JSON(), x.JSON(), y.JSON())
+		}
+	}
+	if got, msg := b("nneq"); msg != "" || got != jv.Equal(x, y) {
+		return fmt.Sprintf("!!(x == y): got %s, want %v (x=%s y=%s)", get("nneq").JSON(), jv.Equal(x, y), x.JSON(), y.JSON())
+	}
+	if got, msg := b("nncont"); msg != "" || got != (jv.Equal(x, y) || jv.Equal(x, z)) {
+		return fmt.Sprintf("!!contains([z, y], x): got %s (x=%s y=%s z=%s)", get("nncont").JSON(), x.JSON(), y.JSON(), z.JSON())
 	}
 	// && and || return one of their operands unchanged (incl. spelling)
 	// (a computed operand is a new number; only its value is pinned)
